@@ -397,8 +397,21 @@ func (b *Bitmap) Max() uint64 {
 	}
 
 	hb, c := b.Containers.Last()
-	lb := c.max()
-	return hb<<16 | uint64(lb)
+	if c.N() > 0 {
+		return hb<<16 | uint64(c.max())
+	}
+
+	// The last container is empty (or nil), so the maximum lives in the
+	// last non-empty container, if there is one.
+	max := uint64(0)
+	citer, _ := b.Containers.Iterator(0)
+	for citer.Next() {
+		k, c := citer.Value()
+		if c.N() > 0 {
+			max = k<<16 | uint64(c.max())
+		}
+	}
+	return max
 }
 
 // Count returns the number of bits set in the bitmap.
